@@ -274,8 +274,20 @@ pub fn explore<S: Scenario>(sc: &S, lim: &Limits, seed_perm: u64) -> Report {
                     let post_o = if !out.ok() {
                         &pre_o
                     } else {
-                        post_o_owned = sc.observe(&post);
-                        &post_o_owned
+                        // the observation consists of public queries; if one of them fails in a reachable state that is a
+                        // finding about the contracts (every property is stated over these queries), not a harness crash
+                        match std::panic::catch_unwind(std::panic::AssertUnwindSafe(|| crate::chain::quiet_panics(|| sc.observe(&post)))) {
+                            Ok(o) => {
+                                post_o_owned = o;
+                                &post_o_owned
+                            }
+                            Err(p) => {
+                                let msg = p.downcast_ref::<String>().cloned().or(p.downcast_ref::<&str>().map(|s| s.to_string())).unwrap_or_default();
+                                acc.viols.push((Viol { oracle: "OBS.query_fails".into(), sig: format!("a public query fails in a reachable state: {}", msg.split(':').next().unwrap_or("")), detail: format!("after {}: {}", a.label, msg) }, *fp, i as u32, false));
+                                acc.transitions += 1;
+                                continue;
+                            }
+                        }
                     };
                     let g2 = sc.step(c, &pre_o, g, a, &out, &post, post_o, &mut cx);
                     acc.transitions += 1;
